@@ -204,6 +204,83 @@ def check(P, R):
              f'this rejection is reachable after `{short(before[0].ast, 60)}` already changed the router: the caller sees the add '
              f'rejected, yet the rule resolves / is listed',
              why='a rejected registration must leave the router as it was')
+    # the same discipline one level down: the method table of a Route is checked as a whole before any of it is stored
+    rt = P.cls(f'{RR}:Route')
+    raisers = {m_.name for m_ in rt.methods.values() if any(isinstance(x, ast.Raise) for x in walk_shallow(m_.node))}
+    storers = {m_.name for m_ in rt.methods.values() if any(isinstance(st, ast.Assign) and any(
+        isinstance(t, ast.Subscript) and dotted(t.value) == 'self._methods' for t in st.targets) for st in walk_shallow(m_.node))}
+    n_reg = 0
+    for m_ in rt.methods.values():
+        if m_.name in ('remove_method', '__getitem__', '__init__') or m_.name.startswith('remove'):
+            continue
+        mg = m_.cfg
+        mut_n, raise_n = [], []
+        for n in mg.nodes:
+            if n.ast is None or n.kind not in ('stmt', 'test'):
+                continue
+            for x in walk_shallow(n.ast):
+                if isinstance(x, ast.Call) and isinstance(x.func, ast.Attribute) and isinstance(x.func.value, ast.Name) and x.func.value.id == 'self':
+                    if x.func.attr in storers and x.func.attr != m_.name:
+                        mut_n.append(n)
+                    if x.func.attr in raisers and x.func.attr not in storers:
+                        raise_n.append(n)
+            if isinstance(n.ast, ast.Assign) and any(isinstance(t, ast.Subscript) and dotted(t.value) == 'self._methods' for t in n.ast.targets):
+                mut_n.append(n)
+            if isinstance(n.ast, ast.Raise):
+                raise_n.append(n)
+        if not mut_n:
+            continue
+        n_reg += 1
+        bad = [(a_, b_) for a_ in mut_n for b_ in raise_n if a_ is not b_ and mg.can_reach(a_, b_)]
+        R.ob('C11.c', m_, bad[0][1].ast if bad else m_.node, not bad, text=f'Route.{m_.name}: every rejection precedes the first store into the method table',
+             detail='' if not bad else
+             f'`{short(bad[0][1].ast, 60)}` can reject the registration after `{short(bad[0][0].ast, 60)}` has already stored an entry: add(rule, [free, taken], h) raises, '
+             f'yet the free method stays registered with h on the existing route',
+             why='a rejected registration must leave the router as it was', key_extra=f'route-atomic:{m_.name}')
+    R.require(n_reg >= 2, f'{n_reg} registration methods of Route found (3 on the pinned tree)')
+    # installing hooks on a node that already carries a route leaves the route's parameter names alone
+    st_ = P.func(f'{RD}:RadiDict._set')
+    sg = st_.cfg
+    pstores = [n for n in sg.nodes if n.kind == 'stmt' and isinstance(n.ast, ast.Assign) and any(
+        isinstance(t, ast.Subscript) and c01.slot_name(t) == 'PARAMS' for t in n.ast.targets)]
+    dpar = 'data' if 'data' in st_.params else None
+    if dpar is None:
+        R.undecided('C11.d', st_, st_.node, 'RadiDict._set', 'no `data` parameter: the route / hook distinction of the call has no recogniser')
+    for n in pstores:
+        guards = [t for t in sg.nodes if t.kind == 'test' and t.ast is not None and any(
+            isinstance(x, ast.Compare) and isinstance(x.left, ast.Name) and x.left.id == dpar and isinstance(x.ops[0], (ast.IsNot, ast.Is)) and is_const(x.comparators[0], None)
+            for x in ast.walk(t.ast))]
+        ok = any(sg.edge_dominates(t, 'true' if any(isinstance(x, ast.Compare) and isinstance(x.ops[0], ast.IsNot) for x in ast.walk(t.ast)) else 'false', n) for t in guards)
+        R.ob('C11.d', st_, n.ast, ok, text=f'`{short(n.ast)}` only when a route (data) is being stored', detail='' if ok else
+             f'`{short(n.ast)}` also runs when only hooks are installed on an existing node: the parameter names of the route registered there are replaced by the hook '
+             f'rule\'s names (/user/:id + hook on /user/:uid -> handler gets uid), and removing the hook does not restore them',
+             why='survivors are intact: the edited router answers like one freshly built from the surviving routes and hooks', key_extra='params-only-with-data')
+    # a lookup answers from the tree; if it keeps answers (a memo on the router), every operation that edits the tree drops them
+    rcls = P.cls(f'{RR}:RadiRouter')
+    rs_ = rcls.methods.get('resolve')
+    memo_attrs = set()
+    if rs_ is not None:
+        for n in walk_shallow(rs_.node):
+            if isinstance(n, ast.Assign):
+                for t in n.targets:
+                    if isinstance(t, ast.Subscript) and (dotted(t.value) or '').startswith('self.') and (dotted(t.value) or '').count('.') == 1:
+                        memo_attrs.add(dotted(t.value).split('.')[1])
+            elif isinstance(n, ast.Call) and call_attr(n) in ('setdefault', 'update', 'append', 'add') and (dotted(n.func.value) or '').startswith('self.') \
+                    and (dotted(n.func.value) or '').count('.') == 1:
+                memo_attrs.add(dotted(n.func.value).split('.')[1])
+    editors = [m_ for m_ in rcls.methods.values() if m_ is not rs_ and any(
+        isinstance(c, ast.Call) and (dotted(c.func) or '').startswith('self.radidict.') and call_attr(c) not in ('get', '_match', 'match', 'items', 'keys', 'values')
+        for c in walk_shallow(m_.node))]
+    for attr in sorted(memo_attrs):
+        for m_ in editors:
+            drops = [c for c in walk_shallow(m_.node) if isinstance(c, ast.Call) and call_attr(c) == 'clear' and dotted(c.func.value) == f'self.{attr}'] + \
+                [st for st in walk_shallow(m_.node) if isinstance(st, ast.Assign) and any(dotted(t) == f'self.{attr}' for t in st.targets)]
+            ok = bool(drops)
+            R.ob('C11.d', m_, drops[0] if drops else m_.node, ok, text=f'RadiRouter.{m_.name} drops the answers kept in self.{attr}', detail='' if ok else
+                 f'resolve() keeps answers in self.{attr}, and RadiRouter.{m_.name} edits the tree without dropping them: a path resolved before the edit keeps being answered '
+                 f'with the old route / hook set (a hook installed afterwards does not fire, a removed one still does)',
+                 why='after any edit the router answers every path like a freshly built one', key_extra=f'memo-invalidate:{attr}:{m_.name}')
+    R.ob('C11.d', rs_ if rs_ is not None else rcls.fq, None, True, text=f'resolve() keeps {len(memo_attrs)} answer memo(s); {len(editors)} tree-editing methods', nontrivial=False)
     # ---- d: pairing in RadiRouter
     check_pairing(P, R)
     # ---- e
